@@ -8,6 +8,8 @@ SPEC = {
         "AM.Config.tracingAfterStop_unsafe", "AM.Config.fallible_after_stop_breaks",
         "AM.Config.secret_leaves_masked", "AM.Config.render_subset",
         "AM.Config.print_load_stable_partial", "AM.Config.print_load_loses_empty_group_by",
+        # F13: the deprecated regular-expression maps print and load back, the empty expression included (repaired printer; the pinned one refuted)
+        "AM.Config.regexp_print_load", "AM.Config.regexp_load_compiled", "AM.Config.regexp_print_load_old_fails", "AM.Config.regexp_print_old_agrees",
         "AM.Config.firstErr_none_all", "AM.Config.receiversErr_none", "AM.Config.nodeErr_none",
     ],
     "engines": [
